@@ -225,7 +225,7 @@ pub fn gen_tuple(r: &mut Rng, known: bool) -> Tuple {
     let ns: Vec<String> = (0..nns).map(|_| comp_string(r, true)).collect();
     let name = comp_string(r, false);
     let ver = if r.chance(3, 5) { Some(comp_string(r, false)) } else { None };
-    let nq = *r.pick(&[0usize, 0, 1, 2, 3, 8]);
+    let nq = *r.pick(&[0usize, 0, 1, 2, 3, 8, 12, 24]);
     let mut quals: Vec<(String, String)> = Vec::new();
     for _ in 0..nq {
         let k = gen_key(r);
@@ -717,7 +717,8 @@ pub fn inject(r: &mut Rng, t: &Tuple, sp: &Spelled, kind: &str) -> Option<String
             s.items.insert(p, "=v".into());
         },
         "qual-key-invalid" => {
-            let bad = *r.pick(&[' ', '!', '@', '/', ':', '+', ',', 'é', '~', '*', '"', '$', '\0', '[']);
+            // incl. non-ASCII digits / numerals / letters, which only look like key characters
+            let bad = *r.pick(&[' ', '!', '@', '/', ':', '+', ',', 'é', '~', '*', '"', '$', '\0', '[', '²', '٣', '１', 'Ⅷ', 'ª', 'ǅ', '\u{212A}']);
             let k = gen_key(r);
             let p = r.below(k.len() + 1);
             let mut k2 = k.clone();
